@@ -23,19 +23,24 @@ Create(w) == /\ st.wr[w].st = "none" /\ FreeName(st)
              /\ UNCHANGED hist
 Write(w) == /\ st.wr[w].st = "open" /\ st.wr[w].k < 2 /\ \E f \in {"", "write"} : st' = DoWrite(st, w, f).s /\ UNCHANGED hist
 Close(w) == /\ st.wr[w].st # "none" /\ (st.wr[w].st = "open" => st.wr[w].k = 2)
-            /\ \E f \in {"", "sync", "rename"} : st' = DoClose(st, w, f).s /\ UNCHANGED hist
+            /\ \E f \in {"", "sync", "rename", "dirsync"} : st' = DoClose(st, w, f).s /\ UNCHANGED hist
 Abort(w) == /\ st.wr[w].st # "none" /\ st' = DoAbort(st, w).s /\ UNCHANGED hist
-Tombstone(w) == /\ st.wr[w].st \in {"closed", "aborted", "cf"}
+Tombstone(w) == /\ st.wr[w].st \in {"closed", "aborted", "cf", "cfr"}
                 /\ Owner(st, st.wr[w].name) = {w}
                 /\ st' = DoTombstone(st, w).s /\ UNCHANGED hist
 Next == \E w \in WriterIds : Create(w) \/ Write(w) \/ Close(w) \/ Abort(w) \/ Tombstone(w)
 Spec == Init /\ [][Next]_vars
 
 \* a scan lists exactly the files whose Close succeeded and that were not tombstoned, with exactly their bytes
-ScanExact == ScanOf(st) = { st.wr[w].name : w \in { w \in WriterIds : st.wr[w].st = "closed" } }
+\* ("cfr": a Close that failed after its rename leaves the file listed until Abort / TombstoneFile - the documented transient)
+ScanExact == ScanOf(st) = { st.wr[w].name : w \in { w \in WriterIds : st.wr[w].st \in {"closed", "cfr"} } }
              /\ \A w \in WriterIds : st.wr[w].st = "closed" => st.dat[st.wr[w].name] = [e |-> TRUE, p |-> st.wr[w].pay, k |-> 2]
 \* in-progress content is never visible at a final name
-NeverExposes == \A n \in Names : (st.dat[n].e /\ st.dat[n].k > 0) => \E w \in WriterIds : st.wr[w].st = "closed" /\ st.wr[w].name = n
+NeverExposes == \A n \in Names : (st.dat[n].e /\ st.dat[n].k > 0) => \E w \in WriterIds : st.wr[w].st \in {"closed", "cfr"} /\ st.wr[w].name = n
+\* an aborted or tombstoned writer leaves nothing behind, whatever happened before
+AbortLeavesNothing == \A w \in WriterIds :
+     (st.wr[w].st = "aborted" /\ \A w2 \in WriterIds \ {w} : st.wr[w2].st = "none" \/ st.wr[w2].name # st.wr[w].name)
+        => (~st.dat[st.wr[w].name].e /\ ~st.tmp[st.wr[w].name].e)
 \* a published file changes only by its own tombstone
 NoClobber == [][\A w \in WriterIds : (st.wr[w].st = "closed" /\ st'.wr[w].st = "closed") => st'.dat[st.wr[w].name] = st.dat[st.wr[w].name]]_vars
 \* artifacts belong to a live writer
